@@ -29,7 +29,7 @@ for d in sorted(glob.glob(os.path.join(HERE, "seeded", "*"))):
     later = m.get("detected_after_strengthening", [])
     own = m.get("property", name[:3])
     caught_own = own in det or own in later
-    rows.append((name, own, ", ".join(files), short(m.get("summary", ""), 260), short(m.get("needs", ""), 200),
+    rows.append((name, own, ", ".join(files), short(m.get("summary", ""), 170), short(m.get("needs", ""), 150),
                  "yes" if ok else "NO", " ".join(det) or "-", " ".join(later) or "", "yes" if caught_own else "NO"))
 
 print("| seeded change | breaks | file(s) | what it does | needs, to manifest | confirmed (55 tests pass, demo fails with / passes without) | quick checks reporting a violation | after strengthening | own check catches it |")
